@@ -1,6 +1,6 @@
 (* Wire entry points of the C10 model (hierarchical bases, hierarchisation, interpolation, checkers). *)
 From Coq Require Import ZArith List QArith Qcanon Bool Arith.
-From SG Require Import Base.Sx Base.QcUtil Model.Basis.
+From SG Require Import Base.Sx Base.QcUtil Model.Basis Model.BasisPieces.
 Import ListNotations.
 Open Scope Z_scope.
 
@@ -67,9 +67,10 @@ Definition build_dim (s : sx) : option (list (Qc * basis) * list nat * bool) :=
     match get_bool bnd, get_bool md, get_Qc a, get_Qc b, get_Qc s, get_Qc e with
     | Some bnd, Some md, Some a, Some b, Some s, Some e =>
       match kind with
-      | 2 => if bnd && negb md then
-               match lagrange_system (zn p) true false s e (regular_points s e (zn L)) (regular_levels (zn L)) with
-               | Some sy => Some (sy, regular_levels (zn L), true) | None => None end
+      | 2 => if negb md then      (* LagrangeGrid1D with modified_basis: `assert False` in the code, excluded *)
+               match local_lagrange_system (zn p) (zn L) bnd a b s e with
+               | Some sy => Some (sy, local_slice bnd (Qc_eqb s a) (Qc_eqb e b) (regular_levels (zn L)), true)
+               | None => None end
              else None
       | 3 => match local_bspline_system (zn p) (zn L) bnd md a b s e with
              | Some sy => Some (sy, local_slice bnd (Qc_eqb s a) (Qc_eqb e b) (regular_levels (zn L)), false)
@@ -78,6 +79,17 @@ Definition build_dim (s : sx) : option (list (Qc * basis) * list nat * bool) :=
       end
     | _, _, _, _, _, _ => None
     end
+  | _ => None
+  end.
+
+(* the interval the basis integrals (quadrature weights) of a dimension refer to: [a, b] for global grids,
+   [start, end] of the current area for local grids *)
+Definition dim_bounds (s : sx) : option (Qc * Qc) :=
+  match s with
+  | Lv [Zv _; Zv _; _; _; a; b; _; _] =>
+    match get_Qc a, get_Qc b with Some a, Some b => Some (a, b) | _, _ => None end
+  | Lv [Zv _; Zv _; _; _; _; _; s; e; Zv _] =>
+    match get_Qc s, get_Qc e with Some s, Some e => Some (s, e) | _, _ => None end
   | _ => None
   end.
 
@@ -139,13 +151,67 @@ Definition entry_C10 (sub : Z) (a : sx) : sx :=
     | Some d => sx_bool (match inverse_of (colloc (fst (fst d))) with Some _ => true | None => false end)
     | None => sx_err 2
     end
-  (* 5: (basis lo hi) -> exact integral of a Lagrange-type basis (restricted ones: over their support) *)
+  (* 5: (basis lo hi) -> get_integral(lo, hi, ...) with the Gauss rule replaced by the formal integral of the pieces *)
   | 5, Lv [bs; lo; hi] =>
     match get_basis bs, get_Qc lo, get_Qc hi with
-    | Some (BLag k i), Some lo, Some hi => of_Qc (lag_integral k i lo hi)
-    | Some (BRLag k i), Some _, Some _ => of_Qc (rl_integral k i)
-    | Some (BNak p i l k), Some lo, Some hi => if nak_is_lagrange p l then of_Qc (lag_integral k i lo hi) else sx_err 5
+    | Some bf, Some lo, Some hi => of_Qc (bintegral bf lo hi)
     | _, _, _ => sx_err 5
+    end
+  (* 6: (dimspecs values evalpoints) -> (weights per dimension, integral per component = <surpluses, weights>,
+        surpluses by the code-shaped flat pole sweep, code-shaped interpolation at the evaluation points,
+        per dimension: every basis object satisfies the side condition of the piecewise-polynomial theorem) *)
+  | 6, Lv [Lv specs; vals; evs] =>
+    match build_dims specs, opt_all (map dim_bounds specs), get_LLQc vals, get_LLQc evs with
+    | Some ds, Some bnds, Some vals, Some evs =>
+      let ss := map fst ds in
+      let ws := map (fun sb => sys_weights (s_basis (fst sb)) (fst (snd sb)) (snd (snd sb))) (combine ss bnds) in
+      match opt_all (map (hier_flat ss) vals) with
+      | Some fsurs =>
+        Lv [of_LLQc ws;
+            of_LQc (map (quad_nd ws) fsurs);
+            of_LLQc fsurs;
+            of_LLQc (map (fun sur => map (fun x => interp_flat ss x sur) evs) fsurs);
+            Lv (map (fun s => sx_bool (forallb (fun xb => basis_wf (snd xb)) (s_basis s))) ss)]
+      | None => sx_err 4
+      end
+    | None, _, _, _ => sx_err 2
+    | _, _, _, _ => sx_err 3
+    end
+  (* 7: (dimspecs values evalpoints doflat) -> everything of 2 and 6 from ONE hierarchisation:
+        (hier_ok flags, surpluses, values at grid points, values at evaluation points, weights per dimension,
+         integral per component, basis_wf per dimension, cross-check part).
+        Interpolation runs through the code-shaped interp_flat (= interp_nd: Proofs/BasisFlat.interp_flat_eq_interp_nd).
+        doflat <> 0: the cross-check part holds the surpluses of the code-shaped flat pole sweep hier_flat and the
+        tensor-recursion interpolation interp_nd at the evaluation points (else it is empty) *)
+  | 7, Lv [Lv specs; vals; evs; Zv doflat] =>
+    match build_dims specs, opt_all (map dim_bounds specs), get_LLQc vals, get_LLQc evs with
+    | Some ds, Some bnds, Some vals, Some evs =>
+      let ss := map fst ds in
+      let ws := map (fun sb => sys_weights (s_basis (fst sb)) (fst (snd sb)) (snd (snd sb))) (combine ss bnds) in
+      match opt_all (map (hier_nd ss) vals) with
+      | Some surs =>
+        let flatpart :=
+          if (doflat =? 0)%Z then Some (Lv [])
+          else match opt_all (map (hier_flat ss) vals) with
+               | Some fsurs => Some (Lv [of_LLQc fsurs; of_LLQc (map (fun sur => map (fun x => interp_nd ss x sur) evs) surs)])
+               | None => None
+               end in
+        match flatpart with
+        | Some fp =>
+          Lv [Lv (map (fun d => sx_bool (snd d)) ds);
+              of_LLQc surs;
+              of_LLQc (map (fun sur => map (fun x => interp_flat ss x sur) (grid_points ss)) surs);
+              of_LLQc (map (fun sur => map (fun x => interp_flat ss x sur) evs) surs);
+              of_LLQc ws;
+              of_LQc (map (quad_nd ws) surs);
+              Lv (map (fun s => sx_bool (forallb (fun xb => basis_wf (snd xb)) (s_basis s))) ss);
+              fp]
+        | None => sx_err 6
+        end
+      | None => sx_err 4
+      end
+    | None, _, _, _ => sx_err 2
+    | _, _, _, _ => sx_err 3
     end
   | _, _ => sx_err 0
   end.
